@@ -10,6 +10,7 @@ package messages
 
 import (
 	"bytes"
+	"crypto/aes"
 	"encoding/binary"
 	"fmt"
 
@@ -57,6 +58,11 @@ func (msg *Encrypted) Serialize(client MessageInformator, requireToAck bool) ([]
 }
 
 func DeserializeEncrypted(data, authKey []byte) (*Encrypted, error) {
+	// auth_key_id, msg_key and at least one cipher block
+	if len(data) < tl.LongLen+tl.Int128Len+aes.BlockSize {
+		return nil, fmt.Errorf("encrypted message is too short: %v bytes", len(data))
+	}
+
 	msg := new(Encrypted)
 
 	buf := bytes.NewBuffer(data)
@@ -84,9 +90,10 @@ func DeserializeEncrypted(data, authKey []byte) (*Encrypted, error) {
 	msg.SessionID = d.PopLong()
 	msg.MsgID = d.PopLong()
 	msg.SeqNo = d.PopInt()
-	messageLen := d.PopInt()
+	messageLen := int(d.PopInt())
 
-	if len(decrypted) < int(messageLen)-(tl.LongLen+tl.LongLen+tl.LongLen+tl.WordLen+tl.WordLen) {
+	// the declared body must lie inside the decrypted data, after the 32 byte header
+	if messageLen < 0 || messageLen > len(decrypted)-(tl.LongLen+tl.LongLen+tl.LongLen+tl.WordLen+tl.WordLen) {
 		return nil, fmt.Errorf("message is smaller than it's defining: have %v, but messageLen is %v", len(decrypted), messageLen)
 	}
 
@@ -100,7 +107,7 @@ func DeserializeEncrypted(data, authKey []byte) (*Encrypted, error) {
 	if !bytes.Equal(dry.Sha1Byte(trimed)[4:20], msg.MsgKey) {
 		return nil, errors.New("wrong message key, can't trust to sender")
 	}
-	msg.Msg = d.PopRawBytes(int(messageLen))
+	msg.Msg = d.PopRawBytes(messageLen)
 
 	return msg, nil
 }
